@@ -16,6 +16,7 @@ UNCERTAIN = [
     'unit characters: letters, % _ / $ and every character >= U+0080',
     'a unit may not start with "_" or with something the exponent production would claim',
     'time-zone name: [A-Z][A-Za-z0-9_+-]*',
+    'a date-time always carries Z or a +-hh:mm offset (a bare local date-time is not a well-formed value)',
     'URI escapes: \\: \\/ \\? \\# \\[ \\] \\@ \\` \\\\ \\& \\= \\; and \\uXXXX',
     'Bin(...) payload: printable ASCII except parentheses (2.0 only)',
     'blanks are allowed around "," and after ":" in metadata/dict pairs, and at line ends',
@@ -322,6 +323,9 @@ def p_date_or_datetime(t, p):
             raise RefReject(q, 'uncertain: UTC offset beyond +-14:59')
         off = t[q:r]
         q = r
+    else:
+        # the grammar's date-time always carries Z or +-hh:mm; what a reader does with a bare local time is not specified
+        raise RefReject(q, 'uncertain: date-time without a UTC offset')
     tz = None
     if at(t, q) == ' ' and is_upper(at(t, q + 1)):
         r = q + 2
